@@ -190,6 +190,8 @@ def run(ctx, params):
             for v in values:
                 el = elements[n % len(elements)]
                 exp, ff, co = judge(ctx, rule_name, el, kids, v, stats)
+                if n % 23 == 0:
+                    ctx.later(lambda c, r=rule_name, e=el, k=kids, x=v: judge(c, r, e, k, x))
                 if exp != C.UNSPEC:
                     ctx.distinct((sig, bool(kids), v))
                 n += 1
